@@ -215,7 +215,7 @@ class DatasetWriting(DatasetBase):
 
         # Check children.
         shard_list: ShardsList = ShardsList.model_validate_json(
-            (self.path / file_path).read_text())
+            (self.path / file_path).read_text(encoding="utf-8"))
         for child in shard_list.children_shard_lists:
             self._check_shard_list_info(child)
 
